@@ -207,6 +207,42 @@ mod verif_driver_assets {
         println!("VERIF-CASES fn=from n={n}");
     }
 
+    // C15 / C02 at the expression level (`impl<T: Into<CanonicalAssets>> Arithmetic for T`, reduce/mod.rs): adding and
+    // subtracting asset lists is exactly the algebra of the values - negative intermediate components included
+    // (`source - quantity - fees` goes below zero in intermediate rounds), nothing filtered or clamped.
+    #[test]
+    fn expression_level_arithmetic() {
+        use crate::model::v1beta0::{AssetExpr, Expression};
+        use crate::reduce::Arithmetic;
+        let mut n = 0;
+        let b = base();
+        let list = |v: &Vec<i128>| -> Vec<AssetExpr> { from_vec(v, false).into() };
+        let back = |e: Expression| -> Option<Vec<i128>> { match e { Expression::Assets(l) => Some(val(&CanonicalAssets::from(l))), _ => None } };
+        for u in &b { for v in &b {
+            n += 1;
+            let sum: Vec<i128> = u.iter().zip(v).map(|(x, y)| x + y).collect();
+            let diff: Vec<i128> = u.iter().zip(v).map(|(x, y)| x - y).collect();
+            let r = catch_unwind(AssertUnwindSafe(|| {
+                let s = Arithmetic::add(list(u), Expression::Assets(list(v))).ok().and_then(&back);
+                let d = Arithmetic::sub(list(u), Expression::Assets(list(v))).ok();
+                let d_val = d.clone().and_then(&back);
+                // (u - v) + v, through the expression-level operators
+                let round = d.and_then(|d| match d { Expression::Assets(l) => Arithmetic::add(l, Expression::Assets(list(v))).ok(), _ => None }).and_then(&back);
+                (s, d_val, round)
+            }));
+            match r {
+                Err(_) => witness("c15_assets/Arithmetic::add#reachable-panic", "add", format!("{u:?} {v:?}"), "panic".into(), "no panic"),
+                Ok((s, d, round)) => {
+                    if s != Some(sum.clone()) { witness("c15_assets/Arithmetic::add#postcondition", "add", format!("{u:?} + {v:?}"), format!("{s:?}"), &format!("{sum:?} (component-wise sum)")); }
+                    if d != Some(diff.clone()) { witness("c15_assets/Arithmetic::sub#postcondition", "sub", format!("{u:?} - {v:?}"), format!("{d:?}"), &format!("{diff:?} (component-wise difference)")); }
+                    if round != Some(u.clone()) { witness("c15_assets/Arithmetic::add#inverse", "add", format!("({u:?} - {v:?}) + {v:?}"), format!("{round:?}"), &format!("{u:?}")); }
+                }
+            }
+        } }
+        println!("VERIF-CASES fn=add n={n}");
+        println!("VERIF-CASES fn=sub n={n}");
+    }
+
     // C14 / C02: arithmetic of the asset algebra on extreme amounts must not panic (and must not wrap)
     #[test]
     fn extreme_amounts_do_not_panic() {
@@ -220,6 +256,13 @@ mod verif_driver_assets {
                 "add" => CanonicalAssets::from_naked_amount(x) + CanonicalAssets::from_naked_amount(y),
                 _ => CanonicalAssets::from_naked_amount(x) - CanonicalAssets::from_naked_amount(y),
             }));
+            if let Ok(got) = &r {
+                // no panic: then the result has to be the exact one (a clamped or wrapped amount is a silently altered value)
+                let exact = match what { "neg" => x.checked_neg(), "add" => x.checked_add(y), _ => x.checked_sub(y) };
+                if got.naked_amount().or(Some(0)) != exact && !(exact == Some(0) && got.naked_amount().is_none()) {
+                    witness(&format!("c15_assets/{what}#postcondition"), what, format!("{what}({x}, {y}) class=out-of-range-result-altered"), format!("{:?}", got.naked_amount()), "the exact amount (the mathematical result does not fit: no value at all)");
+                }
+            }
             if r.is_err() {
                 witness(&format!("c14_assets/{what}#arithmetic-overflow"), what, format!("{what}({x}, {y}) class=amount-overflow"), "panic (arithmetic overflow)".into(), "no panic: exact result or a failure the caller can handle");
             }
